@@ -1,7 +1,7 @@
 """C15 - file access is confined to the mudlib and always mediated by the master.
 
 Every file efun x paths (exhaustive over a small path alphabet up to a length bound, plus generated long /
-dotted / hidden / over-long paths) x master policies {deny, allow, rewrite}; plus #include / inherit /
+dotted / hidden / over-long paths) x master policies {deny, allow, rewrite, file-backed (the master reads its own list with read_file while it is asked)}; plus #include / inherit /
 load_object / clone_object / call_other names. Oracle: the merged master apply log and the interposed libc
 file-call log of each single efun call."""
 import itertools, os
@@ -29,6 +29,9 @@ ONE = ["read_file", "write_file", "read_bytes", "write_bytes", "read_buffer", "w
 TWO = ["rename", "cp", "link"]
 LOADERS = ["load_object", "clone_object", "find_object1", "call_other", "include", "include_sys", "inherit"]
 POLICIES = ["deny", "allow", "rewrite:/scratch/x"]
+GEN_POLICIES = POLICIES + ["acl", "acl"]      # the file-backed master only in the generated part (the exhaustive part keeps its size)
+OPEN_CALLS = ("open", "fopen", "freopen", "creat")
+ACL_TEXT = "ACL-SECRET-LIST\neverything is allowed\n"
 
 AGENT = r'''
 void create() { seteuid(getuid()); }
@@ -83,7 +86,8 @@ gen_paths = st.one_of(
     st.lists(st.sampled_from(["a", "b" * 255]), min_size=20, max_size=40).map(lambda c: "/".join(c)),
     st.text(alphabet=ALPHA, min_size=5, max_size=12),
 )
-probes_gen = st.tuples(st.sampled_from(ONE + TWO + LOADERS[:4]), gen_paths, gen_paths, st.sampled_from(POLICIES))
+probes_gen = st.tuples(st.sampled_from(ONE + TWO + LOADERS[:4] + ["read_file", "read_bytes", "file_length", "tail"]),
+                       st.one_of(gen_paths, st.sampled_from(["/a", "a", "/b/a", "/scratch/x", "/ab.c", "/.hidden", "/acl.txt"])), gen_paths, st.sampled_from(GEN_POLICIES))
 
 
 def nontrivial_path(p, policy):
@@ -183,6 +187,13 @@ def run_probes(ctx, w, probes):
                 # rename() and link() return 0 for success and 1 for failure; the others 0 / -1 / empty for failure
                 if errv == 0 and r not in (0, -1, ("a", [])) and ef not in ("dumpallobj", "dump_prog", "rename", "link"):
                     return ("success-reported-although-denied:" + ef, where), n
+        # (d) a master that reads its own list while being asked: the efun still works on the path that was approved
+        if pol == "acl":
+            outer = [l for l in asked if l[2].lstrip("/") != "master"]
+            opens = [path for fn, path in flog if os.path.normpath(path) == "acl.txt" and fn in OPEN_CALLS]
+            own = sum(1 for l in outer if os.path.normpath(l[1].lstrip("/") or ".") == "acl.txt")
+            if len(opens) > len(outer) + own:
+                return ("masters-own-file-opened-for-the-caller:" + ef, "acl.txt was opened %d times for %d questions to the master\n%s" % (len(opens), len(outer), where)), n
         # every asked apply names the calling object and an operation name
         for l in asked:
             if not l[2] or l[2] == "0" or not isinstance(l[3], str) or not l[3]:
@@ -197,7 +208,7 @@ def get_worker(ctx):
     w = _workers.get(ctx.rundir)
     if w is None:
         fl = {"t/agent.c": AGENT, "a": "decoy a\n", "b/a": "decoy\n", "ab.c": "int x;\n", "a.o": "#/t/agent.c\n", "scratch/x": "rewritten target\n",
-              "scratch/x.o": "#/t/agent.c\n", "inc/a": "int y;\n", ".hidden": "h\n"}
+              "scratch/x.o": "#/t/agent.c\n", "inc/a": "int y;\n", ".hidden": "h\n", "acl.txt": ACL_TEXT}
         w = Worker(ctx.scratch("w"), timeout=60, mudlib_files=fl, conf={"IncludeDir": "/inc"})
         # canaries outside the mudlib: siblings of the mudlib directory reachable through "../a", "../b"
         for nme in ("a", "b", "canary"):
@@ -221,7 +232,7 @@ def close_workers(ctx):
 
 
 def reset_mudlib(w):
-    for rel, txt in {"a": "decoy a\n", "b/a": "decoy\n", "scratch/x": "rewritten target\n"}.items():
+    for rel, txt in {"a": "decoy a\n", "b/a": "decoy\n", "scratch/x": "rewritten target\n", "acl.txt": ACL_TEXT}.items():
         p = os.path.join(w.mudlib, rel)
         try:
             if os.path.isdir(p):
